@@ -19,7 +19,7 @@ ASSUMPTIONS = ['an alias name is used by one rule only (nodes of equal name from
                'anonymous literals never spell a named terminal (a kept and a filtered token of the same type cannot be told apart in a tree)',
                'grammars outside the stated class are discarded and counted', 'non-inlined template rules are excluded by a listed open finding (the source has a TODO for templates)']
 
-O = gramgen.Opts(terms='tok', max_rules=4, shaping=True, templates=True, ignore='always', acyclic=True, nonnull=True, depth=1, distinct_anon=True, unique_aliases=True)
+O = gramgen.Opts(terms='tok', max_rules=4, shaping=True, templates=True, lit_tmpl_args=True, ignore='always', acyclic=True, nonnull=True, depth=1, distinct_anon=True, unique_aliases=True)
 
 
 def kept_symbol(item, self_name, rules_by):
@@ -33,10 +33,11 @@ def kept_symbol(item, self_name, rules_by):
 
 
 def supported(g):
-    by = {r['name']: r for r in g['rules']}
-    for r in g['rules']:
+    # judged on the grammar with its templates instantiated: a parameter bound to an anonymous literal or a _TERMINAL is filtered
+    by = gram.Concrete(g).rules
+    for name, r in by.items():
         for a in r['alts']:
-            if not any(kept_symbol(i, r['name'], by) for i in a['items']):
+            if not any(kept_symbol(i, name, by) for i in a['items']):
                 return False
             # x+ / x* become helper rules of their own: their alternatives must keep a symbol too
             for i in _flat(a['items']):
@@ -123,17 +124,18 @@ def _known_expand1_repetition(case, v):
                        if "('N', '%s'," % r['name'] in r_ and "('N', '%s'," % r['name'] not in o_)
     else:
         return False
+    by = gram.Concrete(case['g']).rules          # templates instantiated: a parameter bound to a literal is filtered like a literal
     def multi(i):
-        return i[0] in ('plus', 'rep', 'star') or (i[0] == 'n' and i[1].startswith('_')) or (i[0] == 'tmpl' and i[1].startswith('_'))
-    for r in case['g']['rules']:
-        if '?' not in r.get('mod', ''): continue
-        keep_all = '!' in r.get('mod', '')
+        return i[0] in ('plus', 'rep', 'star') or (i[0] == 'n' and by[i[1]]['inline'])
+    for r in by.values():
+        if not r['expand1']: continue
+        keep_all = r['keep']
         for a in r['alts']:
             def visible(i):
-                leaves = [x for x in _flat([i]) if x[0] in ('t', 'lit', 'n', 'tmpl', 'p', 're')]
+                leaves = [x for x in _flat([i]) if x[0] in ('t', 'lit', 'n', 're')]
                 return any(keep_all or not (x[0] == 'lit' or (x[0] == 't' and x[1].startswith('_'))) for x in leaves)
             kept = [i for i in a['items'] if visible(i)]
-            if len(kept) == 1 and multi(kept[0]) and "Tree(Token('RULE', '%s')" % r['name'] in err:
+            if len(kept) == 1 and multi(kept[0]) and "Tree(Token('RULE', '%s')" % r['display'] in err:
                 return True
     return False
 
